@@ -60,9 +60,13 @@ func (m *URNsModifier) Apply(eng flows.Engine, env envs.Environment, sa flows.Se
 			log(events.NewErrorf("'%s' is not valid URN", urn))
 		} else {
 			if m.Modification == URNsAppend || m.Modification == URNsSet {
-				modified = contact.AddURN(urn, nil)
+				if contact.AddURN(urn, nil) {
+					modified = true
+				}
 			} else {
-				modified = contact.RemoveURN(urn)
+				if contact.RemoveURN(urn) {
+					modified = true
+				}
 			}
 		}
 	}
